@@ -124,6 +124,10 @@ func tryEvalCheck(r *rep.Run, kleene bool) {
 			// definite[mask][assignment of available vars] remembered for monotonicity
 			type key struct{ mask, asg int }
 			definite := map[key]interface{}{}
+			// one context object reused for every TryEval on this program (the
+			// usual remote-call-optimisation loop keeps its Ctx): availability
+			// and values change between calls, answers must not be remembered
+			shared := &eval.Ctx{VariableFetcher: c.f}
 			for mask := 0; mask < 1<<k; mask++ { // bit v set => variable v available
 				for v := 0; v < k; v++ {
 					avail[v] = mask&(1<<v) != 0
@@ -154,6 +158,15 @@ func tryEvalCheck(r *rep.Run, kleene bool) {
 					c.f.Avail = avail
 					h.Reset()
 					got := h.TryEval(c.e, c.f)
+					if c.o.Events == 0 {
+						h.Reset()
+						gs := h.TryEvalCtx(c.e, shared)
+						ex++
+						if !drive.SameOutcome(gs, got) || (got.Err == nil && isDNE(got.Val) != isDNE(gs.Val)) {
+							r.Violate("reused-context", p.Src+c.o.String(), sprintf("TryEval on a reused Ctx gives %s where a fresh Ctx gives %s (an answer was remembered across calls)", gs, got), caseDesc(p.Src, c.o, p.Vars, vals, avail, nil))
+						}
+						h.Reset()
+					}
 					// user fetchers built by embedding a library fetcher and
 					// overriding Cached/Get must be honoured just the same
 					if c.o.Events == 0 && (c.o.OptBits() == 0 || c.o.OptBits() == 15) {
